@@ -6,7 +6,7 @@ import NmVerif.Lemmas.Concatenate
 import NmVerif.Lemmas.Roll
 import NmVerif.Lemmas.Resize
 import NmVerif.Index.Expand
-import NmVerif.Index.Diagonal
+import NmVerif.Lemmas.Diagonal
 import NmVerif.Index.SlidingWindow
 import NmVerif.Index.Split
 import NmVerif.Index.Stack
@@ -1035,10 +1035,12 @@ example : (stackView [2] [2] 1).map (fun v => (v.dst, v.map [1, 0], v.map [1, 1]
 example : (vstackView [3] [2, 3]).map (fun v => (v.dst, v.map [0, 2], v.map [2, 1])) =
     some ([3, 3], some (false, [2]), some (true, [1, 1])) := by decide
 
-/-! ### diagonal — PARTIAL: proved for a matrix (rank 2, axes (0,1)) and EVERY offset (negative, beyond the extent: empty).
-    Full statement (not proved): for every rank and accepted axis pair `a1 ≠ a2`,
-    `dst = others ++ [max(0, min(s[a1] + min(off,0), s[a2] - max(off,0)))]` and
-    `out[o…, j] = a[o… with a1 ↦ j + max(-off,0), a2 ↦ j + max(off,0)]` (under correspondence for every rank).
+/-! ### diagonal (NumPy `np.diagonal(a, offset, axis1, axis2)`): for every rank, every accepted axis pair (negative
+    spellings included) whose normalised positions `a1 ≠ a2`, and EVERY offset (negative, beyond the extent: empty),
+    `dst = (shape without axes a1, a2) ++ [max(0, min(s[a1] + min(off,0), s[a2] - max(off,0)))]` and
+    `out[o…, j] = a[r]` where `r[a1] = j + max(-off,0)`, `r[a2] = j + max(off,0)` and `r` without the two axes is `o`
+    (`diagonal_shape`, `diagonal_elem`, `diagonal_inBounds`).  The matrix case `diagonal2d_*_partial` (rank 2, axes (0,1))
+    came first and is kept under its name as a regression statement; it is subsumed by the general theorems.
     The two defects of the original code (negative offset, offset beyond the extent) were repaired in /repo. -/
 
 /-- NumPy's diagonal length `max(0, min(n1 + min(off,0), n2 - max(off,0)))` -/
@@ -1104,6 +1106,88 @@ example : (diagonalView [1, 1] 2 0 1).map (·.dst) = some [0] := by decide
 example : diagLen 3 4 (-1) = 2 ∧ diagLen 3 4 5 = 0 := by decide
 
 example : (diagonalView [3, 4] 1 0 1).map (fun v => (v.dst, v.map [2])) = some ([3], some [2, 3]) := by decide
+
+/-! #### diagonal: any rank, any accepted axis pair -/
+
+/-- the clamp expression of `shape_diagonal` is NumPy's diagonal length -/
+private theorem shapeDiagonal_len (n1 n2 : Nat) (off : Int) :
+    i2u (if (if (if off < 0 then (n1 : Int) + off else n1) < (if off > 0 then (n2 : Int) - off else n2) then
+        (if off < 0 then (n1 : Int) + off else n1) else (if off > 0 then (n2 : Int) - off else n2)) < 0 then 0
+      else (if (if off < 0 then (n1 : Int) + off else n1) < (if off > 0 then (n2 : Int) - off else n2) then
+        (if off < 0 then (n1 : Int) + off else n1) else (if off > 0 then (n2 : Int) - off else n2))) = diagLen n1 n2 off := by
+  rw [i2u_of_nonneg _ (by split <;> omega)]
+  unfold diagLen
+  by_cases h1 : off < 0
+  · have h2 : ¬ (off > 0) := by omega
+    simp only [h1, h2, if_true, if_false]
+    split <;> split <;> omega
+  · by_cases h2 : off > 0
+    · simp only [h1, h2, if_true, if_false]
+      split <;> split <;> omega
+    · simp only [h1, h2, if_false]
+      split <;> split <;> omega
+
+/-- shape of `view::diagonal` = NumPy's: the source shape without the two axes, then the diagonal length -/
+theorem diagonal_shape (s : Shape) (off axis1 axis2 : Int) (a1 a2 n1 n2 : Nat)
+    (h1 : normalizeAxis1 axis1 s.length = some a1) (h2 : normalizeAxis1 axis2 s.length = some a2) (hne : a1 ≠ a2)
+    (hn1 : s[a1]? = some n1) (hn2 : s[a2]? = some n2) :
+    ∃ v, diagonalView s off axis1 axis2 = some v ∧ v.src = s ∧ v.dst = removeTwo s a1 a2 ++ [diagLen n1 n2 off] := by
+  simp only [diagonalView, h1, h2, shapeDiagonal, hn1, hn2, Option.map_some]
+  refine ⟨_, rfl, rfl, ?_⟩
+  show othersAux a1 a2 0 s ++ [_] = _
+  rw [othersAux_eq_removeTwo a1 a2 s hne, shapeDiagonal_len]
+
+/-- element `(o…, j)` reads the source index that carries `j + max(-off,0)` on axis1, `j + max(off,0)` on axis2 and
+    `o`, in order, on the remaining axes: NumPy's `a[…, j - min(off,0), …, j + max(off,0), …]` -/
+theorem diagonal_elem (s : Shape) (off axis1 axis2 : Int) (a1 a2 : Nat)
+    (h1 : normalizeAxis1 axis1 s.length = some a1) (h2 : normalizeAxis1 axis2 s.length = some a2) (hne : a1 ≠ a2)
+    (v : IxView) (hv : diagonalView s off axis1 axis2 = some v) (o : Idx) (j : Nat) (ho : o.length + 2 = s.length) :
+    ∃ r, v.map (o ++ [j]) = some r ∧ r.length = s.length ∧
+      r[a1]? = some (j + (max (-off) 0).toNat) ∧ r[a2]? = some (j + (max off 0).toNat) ∧ removeTwo r a1 a2 = o := by
+  have hk1 := (normalizeAxis1_some axis1 _ a1 h1).1
+  have hk2 := (normalizeAxis1_some axis2 _ a2 h2).1
+  simp only [diagonalView, h1, h2, Option.map_eq_some_iff] at hv
+  obtain ⟨dst, _, rfl⟩ := hv
+  obtain ⟨r, hr, hl, hr1, hr2, hrest⟩ := indexDiagonal_spec s o j off a1 a2 hne hk1 hk2 ho
+  have e1 : (if off < 0 then (-off).toNat else 0) = (max (-off) 0).toNat := by split <;> omega
+  have e2 : (if off > 0 then off.toNat else 0) = (max off 0).toNat := by split <;> omega
+  rw [e1] at hr1
+  rw [e2] at hr2
+  exact ⟨r, by simp [hr], hl, hr1, hr2, hrest⟩
+
+/-- no access of a diagonal view leaves the source (any extents: an empty diagonal has no element to read) -/
+theorem diagonal_inBounds (s : Shape) (off axis1 axis2 : Int) (a1 a2 : Nat)
+    (h1 : normalizeAxis1 axis1 s.length = some a1) (h2 : normalizeAxis1 axis2 s.length = some a2) (hne : a1 ≠ a2)
+    (v : IxView) (hv : diagonalView s off axis1 axis2 = some v) : v.InBounds := by
+  have hk1 := (normalizeAxis1_some axis1 _ a1 h1).1
+  have hk2 := (normalizeAxis1_some axis2 _ a2 h2).1
+  have hn1 : s[a1]? = some s[a1] := by simp [hk1]
+  have hn2 : s[a2]? = some s[a2] := by simp [hk2]
+  obtain ⟨w, hw, hsrc, hdst⟩ := diagonal_shape s off axis1 axis2 a1 a2 _ _ h1 h2 hne hn1 hn2
+  rw [hv] at hw; simp only [Option.some.injEq] at hw; subst hw
+  intro d hd i hi
+  rw [hdst] at hd
+  rw [hsrc]
+  have hlen := removeTwo_length s a1 a2 hne hk1 hk2
+  rw [inShape_append_iff] at hd
+  obtain ⟨hd1, hd2⟩ := hd
+  have hdl := hd1.length_eq
+  match hdr : d.drop (removeTwo s a1 a2).length, hd2 with
+  | [j], hd2 =>
+    have hsplit : d = d.take (removeTwo s a1 a2).length ++ [j] := by rw [← hdr, List.take_append_drop]
+    obtain ⟨r, hr, hl, hr1, hr2, hrest⟩ := diagonal_elem s off axis1 axis2 a1 a2 h1 h2 hne v hv
+      (d.take (removeTwo s a1 a2).length) j (by omega)
+    rw [hsplit, hr] at hi
+    simp only [Option.some.injEq] at hi
+    subst hi
+    have hj : j < diagLen s[a1] s[a2] off := by simpa [InShape] using hd2
+    unfold diagLen at hj
+    exact inShape_of_removeTwo r s a1 a2 hne hk1 hk2 hl _ _ _ _ hr1 hn1 (by omega) hr2 hn2 (by omega) (by rw [hrest]; exact hd1)
+
+example : normalizeAxis1 (-1) 3 = some 2 ∧ normalizeAxis1 0 3 = some 0 ∧ removeTwo [2, 3, 4] 2 0 = [3] ∧
+    diagLen 4 2 (-1) = 2 := by decide
+example : (diagonalView [2, 3, 4] (-1) (-1) 0).map (fun v => (v.dst, v.map [2, 0], v.map [1, 1])) =
+    some ([3, 2], some [0, 2, 1], some [1, 1, 2]) := by decide
 
 /-! ### stack with a negative axis: `expand_dims` and the repaired `concatenate` normalise against the same rank `dim+1` -/
 
